@@ -52,7 +52,9 @@ def cases(draw):
         # several keywords of one kind whose values differ only in being integral or not (1.0 vs 1.5 vs 1): each
         # is judged for itself, in whatever order the metaschema is walked
         ks = ["maxLength", "minLength", "maxItems", "minItems"] + (["maxProperties", "minProperties"] if d >= 4 else [])
-        nums = [1.0, 1.5, 2.0, 0.5, 3, 0, 0.0, 2.5, 1e2, 7.000001]
+        # (json.loads("1e400") is float("inf"): JSON text can say it, so it can be offered; only under keywords whose
+        # metaschema entry demands an integer, so that such a candidate is always refused and never used to validate)
+        nums = [1.0, 1.5, 2.0, 0.5, 3, 0, 0.0, 2.5, 1e2, 7.000001, float("inf"), float("-inf")]
 
         def flat():
             return dict((k, draw(st.sampled_from(nums))) for k in draw(st.lists(st.sampled_from(ks), min_size=2, max_size=4, unique=True)))
